@@ -19,6 +19,7 @@ import (
 	"time"
 
 	"github.com/vx-labs/mqtt-protocol/packet"
+	"github.com/vx-labs/wasp/v4/wasp"
 	"github.com/vx-labs/wasp/v4/wasp/messages"
 
 	"verif/internal/vk"
@@ -60,9 +61,9 @@ func TestC15Child(t *testing.T) {
 		fmt.Fprintf(out, "F timeout\n")
 		os.Exit(5)
 	}()
-	err = log.Consume(ctx, "publish_distributor", func(off uint64, p *packet.Publish) error {
-		if string(p.Payload) != strconv.FormatUint(off, 10) {
-			fmt.Fprintf(out, "W %d %s\n", off, p.Payload)
+	handle := func(off uint64, payload string) error {
+		if payload != strconv.FormatUint(off, 10) {
+			fmt.Fprintf(out, "W %d %s\n", off, payload)
 		}
 		fmt.Fprintf(out, "E %d\n", off)
 		// the delivery scheduler's other half (the writer) lags behind the consumer and reads messages back by offset
@@ -95,7 +96,22 @@ func TestC15Child(t *testing.T) {
 			os.Exit(7)
 		}
 		return nil
-	})
+	}
+	if crashPhase == "stop-error" {
+		// a hand-over that fails: only the consumer's own callback can report an error (the broker's scheduler never does)
+		err = log.Consume(ctx, "publish_distributor", func(off uint64, p *packet.Publish) error { return handle(off, string(p.Payload)) })
+	} else {
+		// the broker's own scheduler sits between the log and what receives the offsets (its Writer)
+		// (what receives the offsets reads the messages back from the log, as the real writer does)
+		wasp.SchedulePublishes(1, wasp.VerifScheduleWriter(func(_ context.Context, off uint64) {
+			p, err := log.Get(off)
+			if err != nil {
+				handle(off, "unreadable: "+err.Error())
+				return
+			}
+			handle(off, string(p.Payload))
+		}), log)(ctx)
+	}
 	log.Close()
 	if err != nil && crashPhase != "stop-error" && !errors.Is(err, context.Canceled) {
 		fmt.Fprintf(out, "F consume %v\n", err)
